@@ -33,13 +33,26 @@ Extra(x, i) ==
 \* a list of n items; item `at` carries the extra blocks
 Items(n, at, x) == [i \in 1..n |-> <<P("item" \o ToString(i))>> \o (IF i = at THEN Extra(x, i) ELSE <<>>)]
 
+\* runs of two to four lists directly after one another, of the same or of alternating kinds, at the top
+\* level, inside an item and inside a quote (adjacent lists of one kind need different markers to stay apart)
+Small(k, j) == L(k, << <<P("r" \o ToString(j) \o "a")>>, <<P("r" \o ToString(j) \o "b")>> >>)
+Run(ks) == [j \in 1..Len(ks) |-> Small(ks[j], j)]
+RunKinds == UNION {[1..m -> Kinds] : m \in 2..4}
+Place(where, bs) ==
+    CASE where = "top" -> bs
+      [] where = "item" -> <<L("BL", << <<P("host")>> \o bs >>)>>
+      [] where = "quote" -> <<B("Q", 0, <<>>, bs, <<>>, <<>>, "")>>
+
 VARIABLES doc, done
 Init == doc = <<>> /\ done = FALSE
 Next == /\ ~done
-        /\ \E k \in Kinds, n \in Counts, x \in Extras, at \in {1, 9, 10, 100} :
-              /\ at <= n
-              /\ doc' = <<L(k, Items(n, at, x))>>
-              /\ done' = TRUE
+        /\ \/ \E k \in Kinds, n \in Counts, x \in Extras, at \in {1, 9, 10, 100} :
+                /\ at <= n
+                /\ doc' = <<L(k, Items(n, at, x))>>
+                /\ done' = TRUE
+           \/ \E ks \in RunKinds, where \in {"top", "item", "quote"} :
+                /\ doc' = Place(where, Run(ks))
+                /\ done' = TRUE
 Spec == Init /\ [][Next]_<<doc, done>>
 Emit == done => PrintT(<<"VEC", ToJson([doc |-> [meta |-> "", blocks |-> doc]])>>)
 =============================================================================
